@@ -1459,7 +1459,10 @@ def norm_method(ctx, rel: str, clsname: str, name: str, keep=()):
     substituted, guard clauses turned into if/else (sa/props/_lib_c.norm_class)"""
     from sa.props._lib_c import norm_class, _class_functions
     ctx.func(rel, f"{clsname}.{name}")
+    orig = ctx.cls(rel, clsname)
     cls = norm_class(ctx, rel, clsname, keep=set(keep) | {name})
+    if cls is not orig:
+        inline_predicates(cls, orig, keep=set(keep) | {name})          # pure predicate / selector helpers in expression position (guards)
     fs = [f for _, f in _class_functions(cls) if f.name == name]
     if not fs:
         raise Abstain(f"{clsname}.{name} vanished during normalisation")
@@ -1497,7 +1500,7 @@ def expr_guards(parents, node):
     return out
 
 
-def flag_feasible_path(g, start, goal, must_take=None, avoid=(), exc=False, limit=20000):
+def flag_feasible_path(g, start, goal, must_take=None, avoid=(), exc=False, limit=20000, edge_ok=None):
     """Is there a path start -> goal that is FEASIBLE with respect to local None-flags?  Local names assigned the constant None, a constructor / literal (not None) are tracked
     along the path; tests `x is None` / `x is not None` / `x` / `not x` on a tracked name prune the infeasible edge (a flag set under one test and read under a later one, the
     shape `err = None; if A: err = E(...); ...; if err is not None: raise`).  ``must_take`` = (test node, label): the path has to use that edge; ``avoid``: nodes it may not touch.
@@ -1577,6 +1580,8 @@ def flag_feasible_path(g, start, goal, must_take=None, avoid=(), exc=False, limi
         for b, lab in g.succ.get(n, []):
             if lab == "exc" and not exc:
                 continue
+            if edge_ok is not None and not edge_ok(n, b, lab):
+                continue
             if v is not None and lab in ("T", "F") and (lab == "T") != v:
                 continue
             tk = taken or (must_take is not None and n == must_take[0] and lab == must_take[1])
@@ -1588,31 +1593,68 @@ def flag_feasible_path(g, start, goal, must_take=None, avoid=(), exc=False, limi
 
 
 def inline_predicates(normcls, origcls, keep=()):
-    """In place, on a normalised class: a call ``self._helper()`` in EXPRESSION position whose (private, not kept) helper is just ``return <expr>`` over ``self``
-    is replaced by that expression (norm_class inlines helpers at statement level only). Idempotent."""
+    """In place, on a normalised class: a call ``self._helper(args)`` in EXPRESSION position whose (private, not kept) helper is a pure predicate / selector - its body is only
+    ``return <expr>`` possibly behind ``if <test>: return <expr>`` clauses - is replaced by that expression (a chain of conditional expressions) with the arguments substituted
+    for the parameters (norm_class inlines helpers at statement level only).  Idempotent."""
     from sa.props._lib_c import clone, set_parents
     if getattr(normcls, "_sa_pred_inlined", False):
         return normcls
+
+    def to_expr(stmts):
+        if not stmts:
+            return None
+        st = stmts[0]
+        if isinstance(st, ast.Return):
+            return st.value if st.value is not None else ast.Constant(value=None)
+        if isinstance(st, ast.If) and len(st.body) == 1 and isinstance(st.body[0], ast.Return):
+            rest = to_expr(st.orelse) if st.orelse else to_expr(stmts[1:])
+            if st.orelse and stmts[1:]:
+                return None
+            if rest is None:
+                return None
+            return ast.IfExp(test=st.test, body=st.body[0].value if st.body[0].value is not None else ast.Constant(value=None), orelse=rest)
+        return None
     preds = {}
     for n in origcls.body:
         if isinstance(n, ast.FunctionDef) and n.name.startswith("_") and not n.name.startswith("__") and n.name not in keep and not n.decorator_list:
             a = n.args
-            if len(a.args) != 1 or a.vararg or a.kwarg or a.kwonlyargs or getattr(a, "posonlyargs", []):
+            if not a.args or a.args[0].arg != "self" or a.vararg or a.kwarg or a.kwonlyargs or getattr(a, "posonlyargs", []):
                 continue
             body = [st for st in n.body if not (isinstance(st, ast.Expr) and isinstance(st.value, ast.Constant) and isinstance(st.value.value, str))]
-            if len(body) == 1 and isinstance(body[0], ast.Return) and body[0].value is not None and \
-                    not any(isinstance(x, (ast.Yield, ast.YieldFrom, ast.Await, ast.Lambda, ast.NamedExpr)) for x in ast.walk(body[0].value)):
-                preds[n.name] = (a.args[0].arg, body[0].value)
+            e = to_expr(body)
+            if e is None or any(isinstance(x, (ast.Yield, ast.YieldFrom, ast.Await, ast.Lambda, ast.NamedExpr)) for x in ast.walk(e)):
+                continue
+            if any(isinstance(x, ast.Call) and isinstance(x.func, ast.Attribute) and src(x.func.value) == "self" and x.func.attr == n.name for x in ast.walk(e)):
+                continue          # recursive
+            params = [x.arg for x in a.args[1:]]
+            defaults = dict(zip(params[len(params) - len(a.defaults):], a.defaults)) if a.defaults else {}
+            preds[n.name] = (params, defaults, e)
+
+    class _Sub(ast.NodeTransformer):
+        def __init__(self, m):
+            self.m = m
+
+        def visit_Name(self, nm):
+            if isinstance(nm.ctx, ast.Load) and nm.id in self.m:
+                return clone(self.m[nm.id])
+            return nm
 
     class T(ast.NodeTransformer):
         changed = False
 
         def visit_Call(self, c):
             self.generic_visit(c)
-            if isinstance(c.func, ast.Attribute) and isinstance(c.func.value, ast.Name) and c.func.value.id == "self" and c.func.attr in preds \
-                    and not c.args and not c.keywords and preds[c.func.attr][0] == "self":
+            if isinstance(c.func, ast.Attribute) and isinstance(c.func.value, ast.Name) and c.func.value.id == "self" and c.func.attr in preds:
+                params, defaults, e = preds[c.func.attr]
+                if any(isinstance(x, ast.Starred) for x in c.args) or any(k.arg is None for k in c.keywords) or len(c.args) > len(params):
+                    return c
+                m = dict(defaults)
+                m.update(dict(zip(params, c.args)))
+                m.update({k.arg: k.value for k in c.keywords if k.arg in params})
+                if set(m) != set(params) or any(k.arg not in params for k in c.keywords):
+                    return c
                 T.changed = True
-                return ast.copy_location(clone(preds[c.func.attr][1]), c)
+                return ast.copy_location(_Sub(m).visit(clone(e)), c)
             return c
     if preds:
         for _ in range(4):
